@@ -127,9 +127,26 @@ func (c *Conc) workloadDocs(i int, wl *Workload, st *Style) []Doc {
 		var docs []Doc
 		for j, pn := range wl.PodNames() {
 			m := meta(pn, wl.NS, wl.Labels)
+			// a non-controlling owner (controller: false, or the field omitted) never determines the workload; it may be
+			// listed before the controlling one, or be the only reference of a bare pod
+			other := obj{"apiVersion": "app.k8s.io/v1beta1", "kind": "Application", "name": "umbrella",
+				"uid": "11111111-0000-0000-0000-000000000000", "blockOwnerDeletion": true}
+			if st.coin() {
+				other["controller"] = false
+			}
 			if wl.Expr == "pods" {
-				m["ownerReferences"] = []interface{}{obj{"apiVersion": apiVersions[wl.Kind], "kind": wl.Kind,
+				refs := []interface{}{obj{"apiVersion": apiVersions[wl.Kind], "kind": wl.Kind,
 					"name": wl.Name, "uid": "00000000-0000-0000-0000-000000000000", "controller": true}}
+				if st.coin() {
+					if st.coin() {
+						refs = append([]interface{}{other}, refs...)
+					} else {
+						refs = append(refs, other)
+					}
+				}
+				m["ownerReferences"] = refs
+			} else if st.coin() && st.coin() {
+				m["ownerReferences"] = []interface{}{other}
 			}
 			o := obj{"apiVersion": "v1", "kind": "Pod", "metadata": m, "spec": c.podSpec(wl, st)}
 			if st.coin() {
